@@ -99,6 +99,7 @@ pub struct Session {
     pub disconnect_requested: bool,
     pub mismatch_sent: u32,
     pub hash_delivered: bool,
+    pub hash_delivered_frame: Option<u64>,
     pub wrong_hash: bool,
     /// Per-tick grouping of mutate messages for the C10 oracle.
     pub tick_msgs: BTreeMap<u32, Vec<u64>>,
@@ -142,6 +143,7 @@ impl Session {
             disconnect_requested: false,
             mismatch_sent: 0,
             hash_delivered: false,
+            hash_delivered_frame: None,
             wrong_hash: false,
             tick_msgs: BTreeMap::new(),
             idle_replication_msgs: 0,
@@ -329,6 +331,7 @@ pub struct Sim {
     pub stopped_at: Option<u64>,
     pub stop_pending: bool,
     pub started_at: Option<u64>,
+    pub resume_phase: bool,
 }
 
 pub fn silent_panics() {
@@ -353,8 +356,12 @@ impl Sim {
         let fns = server.world().resource::<FnsMap>().0.clone();
         let chans = Chans { proto: prof.app.auth == 0 };
         let mut clients = Vec::new();
-        for _ in 0..prof.clients.clamp(1, 3) {
-            let app = build_app(&prof.app, prof.client_role);
+        for i in 0..prof.clients.clamp(1, 3) {
+            let mut cfg = prof.app.clone();
+            if prof.wrong_proto & (1 << i) != 0 && cfg.auth == 0 {
+                cfg.proto_variant = 1;
+            }
+            let app = build_app(&cfg, prof.client_role);
             clients.push(ClientNode {
                 app,
                 sess: None,
@@ -409,6 +416,7 @@ impl Sim {
             stopped_at: None,
             stop_pending: false,
             started_at: None,
+            resume_phase: false,
         }
     }
 
@@ -1124,7 +1132,13 @@ impl Sim {
                 }
             }
         } else if Some(ch) == self.chans.proto_hash() {
-            self.clients[c].sess.as_mut().unwrap().hash_delivered = true;
+            let f = self.server_frames;
+            if self.prof.wrong_proto & (1 << c) != 0 {
+                self.stats.fault("wrong_protocol");
+            }
+            let s = self.clients[c].sess.as_mut().unwrap();
+            s.hash_delivered = true;
+            s.hash_delivered_frame.get_or_insert(f);
         } else if let Some(k) = self.chans.cev_of(ch) {
             if let Ok(m) = wire::decode_cev(&msg.bytes, k) {
                 if let Some(e) = self.cev.iter_mut().find(|e| e.seq == m.seq) {
@@ -1503,6 +1517,46 @@ impl Sim {
         }
         if !self.dead() {
             crate::oracles::end_of_run(self);
+        }
+        // Resume phase: after silence the next change is replicated again (C11) and converges (C01).
+        if !self.dead() && self.running && rounds >= 6 {
+            let target = (0..self.slots.len() as u8).find(|s| {
+                self.slot_ent(*s).map(|e| self.replicated(e) && has_kind(self.server.world(), e, Kind::A)).unwrap_or(false)
+            });
+            if let Some(slot) = target {
+                self.resume_phase = true;
+                self.apply(&Step::Mutate { slot, kind: Kind::A, extra: 0 });
+                for _ in 0..3 {
+                    if self.dead() {
+                        return;
+                    }
+                    self.quiescence_round(dt);
+                }
+                if !self.dead() {
+                    crate::oracles::end_of_run(self);
+                }
+            }
+        }
+    }
+
+    fn quiescence_round(&mut self, dt: u32) {
+        self.server_frame(true, dt);
+        for c in 0..self.clients.len() {
+            for ch in 0..self.chans.n_server() {
+                while let Some(msg) = self.clients[c].s2c[ch].pop_front() {
+                    self.deliver_s2c(c, ch, msg, false);
+                }
+            }
+        }
+        for c in 0..self.clients.len() {
+            self.client_frame(c, dt);
+        }
+        for c in 0..self.clients.len() {
+            for ch in 0..self.chans.n_client() {
+                while let Some(msg) = self.clients[c].c2s[ch].pop_front() {
+                    self.deliver_c2s(c, ch, msg);
+                }
+            }
         }
     }
 
